@@ -69,7 +69,7 @@ STEP = st.sampled_from(['T', 'T', 'T', None, 0, '', False])
 def _ev_strategy(depth):
     def handler_s(children):
         return st.fixed_dictionaries({
-            'kind': st.sampled_from(['ret', 'ret', 'none', 'raise', 'gen', 'gen', 'genraise']),
+            'kind': st.sampled_from(['ret', 'ret', 'none', 'raise', 'gen', 'gen', 'genraise', 'retnested']),
             'val': TOKEN,
             'steps': st.lists(STEP, max_size=3),
             'base': st.sampled_from([False, False, False, True]),
@@ -177,9 +177,17 @@ class C04(Prop):
                     return None
                 h = es['handlers'][slot]
                 log.append(('run', es['id'], slot))
+                nested = None
                 for child in make(h.get('fire', [])):
-                    self.fire(child)
+                    v = self.fire(child)
+                    nested = nested or v
                 k = h['kind']
+                if k == 'retnested':
+                    # the handler hands on the (future) Value of a nested event it fired; without children it is a plain return
+                    if nested is not None:
+                        log.append(('retnested', es['id'], slot))
+                        return nested
+                    k = 'ret'
                 if k == 'ret':
                     log.append(('ret', es['id'], slot, h['val']))
                     return h['val']
@@ -258,7 +266,12 @@ class C04(Prop):
                     expected.append(('ERR', l[2]))
             v = e.value
             val = v.value
-            if len(expected) == 0:
+            hands_on_nested = any(l[0] == 'retnested' and l[1] == eid for l in log)
+            if hands_on_nested:
+                # what value/errors should be when a handler returns the Value of another event is not stated by the property
+                # (Value.setValue merges flags of nested Values); only the feedback and isolation clauses are judged
+                pass
+            elif len(expected) == 0:
                 got = None if val is None else ('UNEXPECTED', repr(val))
                 if got is not None:
                     return bad('value', 'event %d: no results expected, value is %r' % (eid, val))
@@ -279,7 +292,7 @@ class C04(Prop):
                         norm.append(g)
                 if len(norm) != len(expected) or any(type(a) is not type(b) or a != b for a, b in zip(norm, expected)):
                     return bad('value', 'event %d: value %r, produced %r' % (eid, _short(norm), _short(expected)))
-            if bool(v.errors) != bool(raisers):
+            if not hands_on_nested and bool(v.errors) != bool(raisers):
                 return bad('errors-flag', 'event %d: errors=%r but raisers=%r' % (eid, v.errors, raisers))
             nexc = [l for l in log if l[0] == 'exception' and l[1] == eid]
             if len(nexc) != len(raisers) or sorted(x[2][1] if isinstance(x[2], tuple) else -1 for x in nexc) != sorted(raisers):
@@ -300,6 +313,8 @@ class C04(Prop):
                     return bad('success-early', 'event %d: success fired before the last handler step' % eid)
                 if es['schan'] and log[nsucc[0]][2] != (es['schan'],):
                     return bad('success-channels', 'event %d: success delivered on %r not %r' % (eid, log[nsucc[0]][2], es['schan']))
+            if hands_on_nested:
+                classes.append('handler-returns-nested-Value')
             kinds = {h['kind'] for h in hs}
             if len(kinds) >= 2 and kinds & {'raise', 'gen', 'genraise'}:
                 nontrivial = True
